@@ -78,6 +78,13 @@ class C15(Spec):
             for d in dump:
                 m = re.match(r"D pend (\S+) rc=(\d+) ac=(\d+) ?(.*)", d)
                 if m: pend[m.group(1)] = (int(m.group(2)), int(m.group(3)), m.group(4))
+            # what a reader is handed (get_pending_opp_copy) is the entry itself: same counters, `fully acknowledged` exactly when they are equal
+            for d in dump:
+                m = re.match(r"D pendcopy (\S+) rc=(\d+) ac=(\d+) full=(\d)", d)
+                if m and m.group(1) in pend:
+                    rc, ac = pend[m.group(1)][:2]
+                    if (int(m.group(2)), int(m.group(3))) != (rc, ac) or (m.group(4) == "1") != (rc == ac):
+                        fails.append(Failure("copy-of-pending-entry-differs-from-entry", f"after {inp}: entry rc={rc} ac={ac}, copy `{d}`"))
             if p[0] == "REG":
                 if (p[1], p[2]) in outstanding: nodup = False
                 outstanding.add((p[1], p[2]))
